@@ -1,0 +1,67 @@
+//! Verification seam (compiled only with `--cfg solstat_verif`): a drop-in for the two `std::fs`
+//! functions `analyze_dir` uses, which lets a harness decide the order in which a directory's
+//! entries are listed. With the guard off this file is not part of the build.
+
+use std::cell::RefCell;
+use std::collections::HashMap;
+use std::ffi::OsString;
+use std::io;
+use std::path::{Path, PathBuf};
+
+thread_local! {
+    static ORDER: RefCell<HashMap<PathBuf, Vec<OsString>>> = RefCell::new(HashMap::new());
+}
+
+/// For each directory (keyed by the path handed to `read_dir`), the order in which its entries
+/// are to be listed. Entries that are not named follow in name order.
+pub fn set_order(order: HashMap<PathBuf, Vec<OsString>>) {
+    ORDER.with(|o| *o.borrow_mut() = order);
+}
+
+pub fn clear_order() {
+    ORDER.with(|o| o.borrow_mut().clear());
+}
+
+pub struct DirEntry {
+    path: PathBuf,
+}
+
+impl DirEntry {
+    pub fn path(&self) -> PathBuf {
+        self.path.clone()
+    }
+}
+
+pub fn read_dir<P: AsRef<Path>>(path: P) -> io::Result<Vec<io::Result<DirEntry>>> {
+    let dir = path.as_ref().to_path_buf();
+    let mut names: Vec<OsString> = Vec::new();
+    for entry in std::fs::read_dir(&dir)? {
+        names.push(entry?.file_name());
+    }
+    names.sort();
+
+    let wanted = ORDER.with(|o| o.borrow().get(&dir).cloned());
+    if let Some(wanted) = wanted {
+        let mut ordered: Vec<OsString> = Vec::new();
+        for name in wanted {
+            if names.contains(&name) && !ordered.contains(&name) {
+                ordered.push(name);
+            }
+        }
+        for name in names {
+            if !ordered.contains(&name) {
+                ordered.push(name);
+            }
+        }
+        names = ordered;
+    }
+
+    Ok(names
+        .into_iter()
+        .map(|name| Ok(DirEntry { path: dir.join(name) }))
+        .collect())
+}
+
+pub fn read_to_string<P: AsRef<Path>>(path: P) -> io::Result<String> {
+    std::fs::read_to_string(path)
+}
